@@ -90,9 +90,22 @@ Check C18_blob_reload_equivalent :
   forall H s t, Inv_tree H s t ->
   exists s', reload (bytes_of_blocks (blocks s)) = Ok s' /\ blob_equiv s s' /\ Inv_tree H s' t.
 Print Assumptions C18_blob_reload_equivalent.
+Check C18_blob_batch_refines_tree :
+  forall H, (forall x, length (H x) = HASH_BYTES) ->
+  forall s ot m items m',
+  Abs H s ot -> tree_refines H ot m -> op_in_range (OBatch items) -> room_for (OBatch items) s ->
+  m_batch items m = Some m' -> step_ok H (OBatch items) s ot (TBatch items).
+Print Assumptions C18_blob_batch_refines_tree.
+Check C18_blob_history_refines_map :
+  forall H, (forall x, length (H x) = HASH_BYTES) -> forall ops,
+  Forall op_in_range ops -> rooms H ops empty_blob ->
+  let '(s', m', fine) := run_joint H ops empty_blob [] in
+  fine = true /\ Inv H s' /\ good_state H s' m' /\
+  exists ot', Abs H s' ot' /\ abs s' = Some ot' /\ tree_refines H ot' m'.
+Print Assumptions C18_blob_history_refines_map.
 Check C18_blob_history_refines_map_partial :
   forall H, (forall x, length (H x) = HASH_BYTES) -> forall ops,
-  Forall op_in_range ops -> rooms H ops empty_blob -> rejected_batches H ops empty_blob [] ->
+  Forall op_in_range ops -> rooms H ops empty_blob ->
   let '(s', m', fine) := run_joint H ops empty_blob [] in
   fine = true /\ Inv H s' /\ good_state H s' m' /\
   exists ot', Abs H s' ot' /\ abs s' = Some ot' /\ tree_refines H ot' m'.
